@@ -138,9 +138,14 @@ func (c WTLengthSliceWrapper) Read(data []byte, ptr unsafe.Pointer, wt plenccore
 	// Now make sure we have enough capacity in the slice
 	h := (*sliceHeader)(ptr)
 	if h.Cap < int(count) {
+		// The count may claim as many entries as there are bytes left while
+		// the first entry covers them all, and nested slices can do that at
+		// every level. So allocate for the entries whose length prefixes are
+		// really there; the slice grows if there turn out to be more.
+		room := entriesPresent(data[n:], count)
 		// Ensure the GC knows the type of this slice.
-		h.Data = unsafe_NewArray(c.EltType, int(count))
-		h.Cap = int(count)
+		h.Data = unsafe_NewArray(c.EltType, room)
+		h.Cap = room
 	} else {
 		// We're going to re-use the backing array. It's going to be surprising
 		// if we don't start from zeros so we zero everything.
@@ -151,10 +156,16 @@ func (c WTLengthSliceWrapper) Read(data []byte, ptr unsafe.Pointer, wt plenccore
 			typedmemclr(unpackEFace(c.EltType).data, ptr)
 		}
 	}
-	h.Len = int(count)
+	h.Len = 0
 
 	offset := n
-	for i := 0; i < h.Len; i++ {
+	for i := 0; i < int(count); i++ {
+		if i == h.Cap {
+			nh := sliceHeader{Data: unsafe_NewArray(c.EltType, 2*h.Cap+1), Len: i, Cap: 2*h.Cap + 1}
+			typedslicecopy(c.EltType, nh, *h)
+			*h = nh
+		}
+		h.Len = i + 1
 		s, n := plenccore.ReadVarUint(data[offset:])
 		if n <= 0 {
 			return 0, fmt.Errorf("invalid varint for slice entry %d", i)
@@ -173,6 +184,20 @@ func (c WTLengthSliceWrapper) Read(data []byte, ptr unsafe.Pointer, wt plenccore
 	}
 
 	return offset, nil
+}
+
+// entriesPresent counts the length-prefixed entries data holds, up to max,
+// going by the lengths the entries declare
+func entriesPresent(data []byte, max uint64) int {
+	var i, offset int
+	for ; uint64(i) < max && offset < len(data); i++ {
+		l, n := plenccore.ReadVarUint(data[offset:])
+		if n <= 0 || l > uint64(len(data)-offset-n) {
+			break
+		}
+		offset += n + int(l)
+	}
+	return i
 }
 
 // readAsWTLength is here for protobuf compatibility. protobuf writes certain
